@@ -86,6 +86,9 @@ class Trace:
         sess_counter = [0]
         last_got = {}          # (client, ty) -> last seq delivered (order check)
         pending_cops = {}
+        maps = {}              # (client, entity) -> pre-spawn id the server registered
+        pre_dead = set()       # (client, pre id) the client's own logic despawned
+        pre_dead_pending = {}
         pending_sops = []
         spec_marked = {}       # entity -> bool (alive and carrying the marker)
         spec_vis = {}          # (client, entity) -> most recent setting since the entity last started replicating
@@ -105,6 +108,8 @@ class Trace:
                     self.add("C01", i, "undecodable or misaddressed message: %s" % l)
             if t[0] == "sop":
                 pending_sops.append(t[1:])
+            if t[0] == "cop" and t[2] == "despawn":
+                pre_dead_pending.setdefault(int(t[1]), []).append(int(t[3]))
             if t[0] == "cop" and t[2] == "ev":
                 pending_cops.setdefault(int(t[1]), []).append(t[3:])
             if t[0] == "cfg":
@@ -148,6 +153,11 @@ class Trace:
                         if ok_mode:
                             emitted[sq] = dict(ty=ty, mode=mode, step=i, connected={c: sess_id[c] for c in connected},
                                                ent=op[4] if len(op) > 4 else None, running=True)
+                        continue
+                    if op[0] == "map":
+                        c_, e_, pc_ = int(op[1]), int(op[2]), int(op[3])
+                        if c_ in authorized:
+                            maps[(c_, e_)] = pc_
                         continue
                     if op[0] == "spawn":
                         e = int(op[1])
@@ -290,6 +300,8 @@ class Trace:
                     # cop ev <TY> <seq> [r<e>] : only events written while connected are for the remote server
                     cemitted[int(op[1])] = dict(ty=op[0], client=c, session=sess_id.get(c) if c in connected else None, step=i,
                                                 ent=op[2] if len(op) > 2 else None)
+                for pc_ in pre_dead_pending.pop(c, []):
+                    pre_dead.add((c, pc_))
                 got_line = [l for l in block if l.startswith("got %d " % c)]
                 cli_line = [l for l in block if l.startswith("cli %d " % c)]
                 if got_line and cli_line:
@@ -353,6 +365,16 @@ class Trace:
                             for e in live:
                                 if e in snap and set(live[e]["comps"]) != set(snap[e]):
                                     self.add("C03", i, "client %d entity %d has components %r, server had %r at tick %d" % (c, e, sorted(live[e]["comps"]), sorted(snap[e]), ut))
+                    # C16: an entity the server mapped to a pre-spawned client entity lands on that entity
+                    for (mc, me), pc_ in maps.items():
+                        if mc != c or me not in ents or ents[me].get("dead"):
+                            continue
+                        tag = ents[me].get("pre")
+                        if (c, pc_) not in pre_dead and tag != "p%d" % pc_ and ents[me].get("marker"):
+                            self.add("C16", i, "server entity %d was mapped to client %d's pre-spawned entity %d but replication landed on %s" % (me, c, pc_, tag or "a newly spawned entity"))
+                    tags = [x.get("pre") for x in ents.values() if not x.get("dead") and x.get("pre")]
+                    if len(tags) != len(set(tags)):
+                        self.add("C16", i, "two server entities are mapped to the same pre-spawned entity of client %d" % c)
                     for e, x in ents.items():
                         if x.get("dead"):
                             self.add("C03", i, "client %d maps server entity %d to a despawned entity" % (c, e))
